@@ -203,6 +203,13 @@ pub fn text_case_mix(big: usize) -> BoxedStrategy<TextCase> {
     .boxed()
 }
 
+/// line texts with 90..=max lines (straddles the 100-token switch)
+pub fn big_line_case(max_lines: usize) -> BoxedStrategy<TextCase> {
+    (line_text_pair_sized(90, max_lines, false), 0u8..3, any::<bool>(), 0u8..8)
+        .prop_map(move |((old, new), alg, bytes, opt)| TextCase { old, new, tok: 0, alg, bytes, opt })
+        .boxed()
+}
+
 pub fn line_case(max_lines: usize, invalid: bool) -> BoxedStrategy<TextCase> {
     (line_text_pair(max_lines, invalid), 0u8..3, any::<bool>(), 0u8..8)
         .prop_map(move |((old, new), alg, bytes, opt)| TextCase { old, new, tok: 0, alg, bytes: bytes || invalid, opt })
